@@ -89,6 +89,7 @@ import JdProofs.V1KeysDiffPatchC
 import JdProofs.V1KeysDiffPatchB
 import JdProofs.V1KeysDiffPatchA
 import JdProofs.V1Precision
+import JdProofs.OptSites
 
 set_option autoImplicit false
 
@@ -480,5 +481,14 @@ theorem v1_text_roundtrip_list_precision (L : FloatLaws) {N : Nat} (I : IdxLaws 
   Jd.V1Pr.v1_text_roundtrip_list_precision (L := L) (N := N) (I := I) (nc := nc) (m := m) (hm := hm) (a := a) (b := b) (ha1 := ha1) (ha2 := ha2) (ha3 := ha3) (ha4 := ha4) (ha5 := ha5) (hb1 := hb1) (hb2 := hb2) (hb3 := hb3) (hb4 := hb4) (hbv := hbv) (hc := hc) (text := text) (hr := hr)
 
 end
+
+/-! ### Option plumbing of the Go source = the model's (regenerated table, JdProofs/OptSites.lean)
+
+   Which option list each call inside v2/ and lib/ passes to `hashCode` / `Equals` / `diff` / `ident` / `dispatch` … is
+   regenerated from the Go source on every run (tools/optfacts, 187 sites) and proved equal to the table the model was
+   written against. A dropped or added option argument breaks this, whether or not a generated input reaches it. -/
+
+theorem option_plumbing_as_modelled : Gen.optSites = Jd.OptSites.expected :=
+  Jd.OptSites.option_plumbing_as_modelled
 
 end Jd.Props.C17
